@@ -31,8 +31,8 @@ BUDGET = {"quick": 1600, "thorough": 40000}
 FUZZ = {"quick": 0, "thorough": 48000}  # executions of the coverage-guided stage (vlib/fuzz.py)
 SHRINK_SECONDS = {"quick": 30, "thorough": 150}
 RULE = (
-    "case = (problem from vlib.gen_matrix.problems with extra higher-order terms, form in {blocked, scalar}, element "
-    "type in {numpy, sympy}, schedule of <= 6 requests (series, block, multi-order)). Non-trivial = some term is defined "
+    "case = (problem from vlib.gen_matrix.problems with extra higher-order terms, form in {blocked, scalar, scalar in implicit mode}, element "
+    "type in {numpy, sympy}, schedule of <= 6 requests (series, block, multi-order) plus an optional paired-list request naming 2-3 multi-orders at once). Non-trivial = some term is defined "
     "outside the cone of some request AND a term of total order >= 2 lies inside the cone of some request of total "
     "order >= 2."
 )
